@@ -511,16 +511,17 @@ func genC05(g *Gen, emit c05Emitter) {
 			g.Count(fmt.Sprintf("enum-len%d", n))
 		})
 	}
+	// one length more, additions with i <= j only: a deterministic sample
+	k := 0
+	every := g.pick(4, 3)
+	c05Enum(maxLen+1, []uint{2}, false, func(p *ir.Program) {
+		k++
+		if k%every == 0 {
+			emit(g, p, false)
+			g.Count(fmt.Sprintf("enum-len%d-sample", maxLen+1))
+		}
+	})
 	if g.Thorough {
-		// length 6 with unordered additions: a deterministic 1-in-8 sample
-		k := 0
-		c05Enum(6, []uint{2}, false, func(p *ir.Program) {
-			k++
-			if k%8 == 0 {
-				emit(g, p, false)
-				g.Count("enum-len6-sample")
-			}
-		})
 		// other shift amounts at length <= 4
 		for n := 1; n <= 4; n++ {
 			c05Enum(n, []uint{1, 3, 64}, false, func(p *ir.Program) {
